@@ -523,7 +523,7 @@ def handleConnack (s : S) (sp : Bool) (result : Nat) (reconnectOk : Bool) : S ×
         let s := { s with proto := 3 }
         s.reconnect reconnectOk
     else
-      let s := if result = 0 then { s with cstate := .connected, reconnectDelay := none } else s
+      let s := if result = 0 then { s with cstate := (if s.cstate = .disconnecting then .disconnecting else .connected), reconnectDelay := none } else s
       let s := { s with firstConnect := false }
       let shown := if s.proto = 5 ∧ result = 1 then 132 else result
       let s := s.emit (.onConnect shown sp)
